@@ -242,6 +242,18 @@ def lazy_features(case):
     return trace, (kinds if len(kinds) >= 3 else set())
 
 
+
+def crash_features(case):
+    trace, kinds = rawdb_features(case)
+    evs = 0
+    for obs in case["impl"][1:]:
+        d = rsec(split_obs(obs)[0]) if " | " in obs else {}
+        evs += len(d.get("E", "").split())
+    if evs > 20:
+        kinds = set(kinds) | {"many-events"}
+    return trace, kinds
+
+
 VEC_RULE = (
     "histories generated by harness/src/vec_engine.rs over 14 format×type combinations (BytesVec u16/u64/u128/f32, ZeroCopyVec u32/u64, "
     "PcoVec u32/u64/i64/f64, LZ4Vec u64/u128, ZstdVec u16/u32), values incl. 0, MAX, sign boundary and random bit patterns, bulk pushes of "
@@ -277,6 +289,9 @@ ENGINES.append({"name": "import", "path": "harness/src/import_engine.rs + lean/D
 
 ENGINES.append({"name": "lazy", "path": "harness/src/lazy_engine.rs + lean/Driver/LazyProto.lean", "serves_properties": ["C15"],
      "kind_free_text": "LazyVecFrom1/2/3, LazyDeltaVec<DeltaSub> and LazyAggVec<Sparse> over BytesVec sources that are rewritten and grow after construction; every range request goes through six range APIs which must agree, plus point and sorted reads; oracle = defining formula on plain vectors; canonical answers compared with the Lean model"})
+
+ENGINES.append({"name": "crash", "path": "harness/src/crash_engine.rs (+ rawdb driver protocol)", "serves_properties": ["C05", "C12"],
+     "kind_free_text": "records every effect on the two files through the guarded durability tap while a generated history runs on the real rawdb, builds crash images (sync-only, all-written, single-page deviations, random per-page mixtures of versions) at every event boundary after the first flush and runs the real Database::open on each; compares the per-request event stream with the Lean model's; checks compact's frame conditions on the real database"})
 
 NOT_CLAIMED = {}
 
@@ -419,6 +434,28 @@ PROPS = {
         level_text="Lean 4 theorems on the index arithmetic of the read paths, for all lists, ranges, page and chunk sizes: the clean raw path (stored slice + buffered slice, both ends clamped) returns exactly the logical contents restricted to [from,to), reversed/out-of-range ⇒ [] (C08_rawClean, sliceOf_*); a cursor's chunk-aligned refill answers get(i) with element i for every chunk size (C08_cursor_get); a compressed range inside one page reads page[from-start, to-start) (C08_pages_single); the merged dirty iteration without overlay is the disk slice (C08_dirty_no_overlay), and handles a deleted+overlaid slot (example = the F25 history). Tied to the code by running, on every `reads` request, 24 ranges × 11 range APIs + aggregates + 12 point reads + cursor scripts + sorted reads on the read-write vector, its read-only clone and both stored-scan back-ends against the reference slice (oracle) and against the model's answer hash.",
         level_note="Trusted: Lean kernel + standard axioms; hand-written model; harness. The merged iteration with holes AND overlay (dirtyStored in full) and the multi-page window of read_stored_pages_into are validated by the correspondence only. F22, F23, F25 found here were repaired by fix: commits.",
         technique="Lean 4 proof of read-path index arithmetic + exhaustive-per-state differential run of all read APIs against the reference slice",
+    ),
+    "C05": dict(
+        lean="AnyDB.Props.C05",
+        runs=[
+            Run("crash", "crash-images", ["--mixes", "6"], (96, 30), (1600, 70), proj_events, ["C05", "panic"], crash_features, driver_engine="rawdb"),
+        ],
+        rule=RAWDB_RULE + "; histories are generated as for C01/C02 (files kept near 1 MiB, writes ≤ 20 kB) with a flush early in the case; after the first completed flush EVERY event boundary is a crash point; per point: sync-only image, all-written image, for every dirty metadata page three single-page deviations, and 6 (quick) random per-page mixtures of all versions since the last sync of each file; the real Database::open runs on every image",
+        assumptions=["4 KiB page writes are atomic; file-length changes are durable in order; fdatasync makes every page stored through the shared mapping durable; a page not stored to since the last sync keeps its synced content (the OS contract of DESIGN.md §7)", "hook H2 (durability event tap) reports every store / set_len / sync / punch"],
+        level_text="Lean 4 theorem C05_untouched over the durability model of a file (adversary stronger than the property's: a page stored to since the last sync may hold ANY content after the crash): take the file right after a sync and let any sequence of later stores, hole punches, syncs and file growth happen, none storing into the pages of [a,b): then in EVERY crash image, at every later point, the bytes of [a,b) are exactly the synced ones; a metadata slot is exactly one page, so an untouched slot is byte-identical in every crash image (C05_slot_atomic); right after a sync the only crash image is the file itself (C05_sync_exact); on the extracted call orders of Database::flush the data file is synced before the metadata file and freed extents are promoted only after a metadata sync, on both paths (C05_order). That later operations never store into an untouched flushed region's extent is C01/C02 (allocator hands out free extents only; extents become free only after the sync that made their release durable) and is validated by the crash engine: real event streams, crash images at every event boundary, real open, oracles: opens, extents disjoint and inside the file, untouched flushed regions intact; plus event-stream correspondence with the model.",
+        level_note="Trusted: Lean kernel + standard axioms; the OS contract above; hand-written models; the durability tap. F10 (no metadata sync before promoting holes when no region is dirty) found in design reading, reproduced as event order, repaired by a fix: commit. The 'sync-only' second sentence of the property (never a mixture) is covered by the sync-only images of the crash engine, not by a separate theorem.",
+        technique="Lean 4 proof (invariant over event sequences in a page-granular durability model) + crash-image enumeration on real event streams with real recovery",
+    ),
+    "C12": dict(
+        lean="AnyDB.Props.C12",
+        runs=[
+            Run("crash", "compact", ["--mixes", "3"], (64, 30), (1000, 70), proj_events, ["C12", "C05", "panic"], crash_features, driver_engine="rawdb"),
+        ],
+        rule=RAWDB_RULE + "; same crash-point enumeration as C05 with compact among the requests (regions with partially used reserves, freed and coalesced extents, extents freed but not yet flushed)",
+        assumptions=["FALLOC_FL_PUNCH_HOLE|KEEP_SIZE zeroes the range and keeps the length", "rayon's parallel loop over disjoint ranges behaves like the sequential loop of the model", "interleavings of compact with a concurrent writer are not covered here (design finding F16 is a C10-family race; see DESIGN.md)"],
+        level_text="Lean 4 theorems on the model of compact = flush; punch_holes: punch_holes changes no slot, no layout map and not the file length (C12_meta_unchanged, C12_compact_len); every byte range disjoint from all candidate ranges (reserve tails and free extents) reads the same before and after (C12_frame, by induction over both loops); a region's tail candidate starts at or above the end of its contents on a page boundary (C12_tail_above_data); compact flushes first and, by C05_order, extents are promoted — become candidates — only after the metadata sync that made their release durable (C12_order). On the real code the crash engine checks before/after every compact: bytes, length, placement of all live regions and the file length unchanged; every punched range inside a (coalesced) free extent or a reserve tail; crash points inside compact satisfy the C05 oracles.",
+        level_note="Trusted: as C05. The race of compact against a writer extending a region into its reserve (F16 of the design reading) needs a thread schedule and is NOT decided by this check; sequential histories only.",
+        technique="Lean 4 proof (frame of hole punching over the candidate loops) + before/after and crash-image validation on the real compact",
     ),
     "C13": dict(
         lean="AnyDB.Props.C13",
